@@ -6,6 +6,15 @@ let show_res t r =
   | Val.Err -> ("E", "-")
   | Val.Unk -> ("U", "-")
 
+(* argv[1]: which columns are computed: c01 (Jit, std, IL), c11 (Jit, Opt, OptFast), default all *)
+let want_std, want_opt, want_il =
+  match (if Stdlib.Array.length Sys.argv > 1 then Sys.argv.(1) else "all") with
+  | "c01" -> (true, false, true)
+  | "c11" -> (false, true, false)
+  | _ -> (true, true, true)
+
+let skip = ("-", "-")
+
 let () =
   let ty_cache : (string, Ty.ty) Stdlib.Hashtbl.t = Stdlib.Hashtbl.create 64 in
   Conv.iter_lines (fun line ->
@@ -19,10 +28,10 @@ let () =
         let input = Conv.bytes_of_hex inhex in
         let o = Sx.opts_of cfg in
         let (ss, sv) = show_res t (SonicBind.sonic_unmarshal Sx.weak_hash SonicBind.Jit o t input v0) in
-        let (js, jv) = show_res t (StdBind.std_unmarshal o t input v0) in
-        let (os, ov) = show_res t (SonicBind.sonic_unmarshal Sx.weak_hash SonicBind.Opt o t input v0) in
-        let (fs, fv) = show_res t (SonicBind.sonic_unmarshal Sx.weak_hash SonicBind.OptFast o t input v0) in
-        let (is, iv) = show_res t (Exec.il_unmarshal Sx.weak_hash o t input v0) in
+        let (js, jv) = if want_std then show_res t (StdBind.std_unmarshal o t input v0) else skip in
+        let (os, ov) = if want_opt then show_res t (SonicBind.sonic_unmarshal Sx.weak_hash SonicBind.Opt o t input v0) else skip in
+        let (fs, fv) = if want_opt then show_res t (SonicBind.sonic_unmarshal Sx.weak_hash SonicBind.OptFast o t input v0) else skip in
+        let (is, iv) = if want_il then show_res t (Exec.il_unmarshal Sx.weak_hash o t input v0) else skip in
         Stdlib.Printf.printf "%s\t%s\t%s\t%s\t%s\t%s\t%s\t%s\t%s\t%s\t%s\n" id ss sv js jv os ov fs fv is iv
       with Failure m -> Stdlib.Printf.printf "%s\tX\t%s\tX\t-\n" id m)
     | ["IL"; tys] ->
